@@ -153,6 +153,10 @@ def publish(loc, ident_mode):
     state.update_from_sdc_location(loc)
     if ident_mode == 1:     # identification by root only: a valid InstanceIdentifier without extension
         state.Identification = [pm_types.InstanceIdentifier(root=DEFAULT_ROOT)]
+    elif ident_mode == 2:   # a site-specific identification in front of the sdc.ctxt.loc.detail one: one scope per identification
+        state.Identification.insert(0, pm_types.InstanceIdentifier(root='urn:oid:1.2.3', extension_string='site/7'))
+    elif ident_mode == 3:   # ... or behind it
+        state.Identification.append(pm_types.InstanceIdentifier(root='urn:oid:1.2.3', extension_string='site/7'))
     return mk_scopes(StubMdib([state]))
 
 
@@ -182,12 +186,12 @@ def published_inside(m0: int, m1: int, m2: int, m3: int, m4: int, m5: int, style
     pre: 0 <= m4 < 3
     pre: 0 <= m5 < 3
     pre: 0 <= style < 2
-    pre: 0 <= ident < 2
+    pre: 0 <= ident < 4
     post: __return__ == 'ok'
     """
     r3 = (0, 1, 2)
     ms = [pick(m, r3) for m in (m0, m1, m2, m3, m4, m5)]
-    style, ident = pick(style, STYLES), pick(ident, (0, 1))
+    style, ident = pick(style, STYLES), pick(ident, (0, 1, 2, 3))
     with untraced():
         orc = Oracle()
         try:
